@@ -474,10 +474,27 @@ impl Expression {
                 let z = z.eval_value(context)?;
 
                 // The selected branch extends to the evaluation width by the
-                // result signedness: both-signed branches sign-extend
-                // (LRM 11.4.11), anything else zero-extends.
-                let signed = y.signed() && z.signed();
+                // PROPAGATED signedness (LRM 11.8.1/11.4.11): an unsigned
+                // sibling makes the whole expression unsigned, so the
+                // branches' own flags alone must not sign-extend.
                 let width = y.width().max(z.width()).max(context_width);
+
+                if x.is_xz() {
+                    // Unknown selector: both branches are evaluated and merged
+                    // bit by bit; equal known bits survive, the rest is x.
+                    let y = y.expand(width, signed);
+                    let z = z.expand(width, signed);
+                    let unknown = (y.payload().as_ref() ^ z.payload().as_ref())
+                        | y.mask_xz().as_ref()
+                        | z.mask_xz().as_ref();
+                    let payload = y.payload().as_ref() & (&unknown ^ ValueBigUint::gen_mask(width));
+                    let mut ret = Value::new_biguint(payload, width, y.signed() && z.signed());
+                    match &mut ret {
+                        Value::U64(r) => r.mask_xz = unknown.iter_u64_digits().next().unwrap_or(0),
+                        Value::BigUint(r) => *r.mask_xz = unknown,
+                    }
+                    return Some(ret);
+                }
 
                 let ret = if x.to_usize().unwrap_or(0) == 0 { z } else { y };
                 let ret = ret.expand(width, signed).into_owned();
